@@ -473,6 +473,39 @@ func c11Run(c *engine.Ctx) {
 			c.Warn("vacuous: class " + k + " is empty")
 		}
 	}
+	// point-on-segment at the END POINTS of axis-parallel and diagonal segments whose two ends
+	// differ in magnitude or sign: the query point 0..3 ulps before and beyond either end, on the
+	// line. Every ordered pair of ends over a 9-value menu, horizontal / vertical / on the diagonal
+	// x = y (where the perturbed point stays exactly on the line), two fixed ordinates.
+	endVals := []float64{-8.25, -3.5, -1, 0.1, 1, 1.3, 4, 900.25, 1e6 + 0.5}
+	c.Parallel(len(endVals), func(i int) {
+		s := endVals[i]
+		for _, e := range endVals {
+			if e == s {
+				continue
+			}
+			for _, at := range []float64{s, e} {
+				for k := -3; k <= 3; k++ {
+					t := ulps(at, k)
+					for _, y0 := range []float64{2, 0.7} {
+						for orient := 0; orient < 3; orient++ {
+							var a, b, p [2]float64
+							switch orient {
+							case 0:
+								a, b, p = [2]float64{s, y0}, [2]float64{e, y0}, [2]float64{t, y0}
+							case 1:
+								a, b, p = [2]float64{y0, s}, [2]float64{y0, e}, [2]float64{y0, t}
+							default:
+								a, b, p = [2]float64{s, s}, [2]float64{e, e}, [2]float64{t, t}
+							}
+							c.Count("end_point_ulp_queries", 1)
+							c11Exec(c, c11Case{Mode: "line", Ring: []ref.F{ref.F(a[0]), ref.F(a[1]), ref.F(b[0]), ref.F(b[1])}, P: []ref.F{ref.F(p[0]), ref.F(p[1])}, Layout: geom.XY})
+						}
+					}
+				}
+			}
+		}
+	})
 	// very large rings (beyond any block size a divided scan might use): the zig-zag tower of
 	// c11Tower, queried at every odd height inside, left and right of it and in the middle of both
 	// edges at that height, plus the middles of the bottom and top edges; both directions and three
